@@ -193,3 +193,36 @@ def replay(harness, values, features=None):
     if p.returncode == 3:
         return "invalid", txt
     return "error", txt
+
+
+def sweep(harnesses, runs, features=None, timeout=1800):
+    """native sweep (bounded): run every harness body natively on `runs` generated inputs (boundary-word palette plus pseudo-random
+    words, see kani/src/sym.rs) against /repo; returns dict(status, results={harness: (outcome, valid, invalid, values, message)})"""
+    ok, out = build_replay(features)
+    if not ok:
+        return {"status": "error", "message": out[-1500:], "results": {}}
+    exe = os.path.join(VERIF, "build", "replay-target", "debug", "replay")
+    shorts = {}
+    for h in harnesses:
+        s_ = h.split("::")[-1]
+        if s_.endswith("_must_panic") or s_.startswith("canary"):
+            continue
+        shorts[s_] = h
+    if not shorts:
+        return {"status": "ok", "results": {}}
+    try:
+        p = subprocess.run([exe, "--sweep", str(runs)] + sorted(shorts), capture_output=True, text=True, timeout=timeout)
+    except subprocess.TimeoutExpired:
+        return {"status": "timeout", "message": "native sweep timed out", "results": {}}
+    res = {}
+    for line in p.stdout.split("\n"):
+        m = re.match(r"SWEEP harness=(\S+) outcome=holds valid=(\d+) invalid=(\d+)", line)
+        if m and m.group(1) in shorts:
+            res[shorts[m.group(1)]] = ("holds", int(m.group(2)), int(m.group(3)), None, "")
+            continue
+        m = re.match(r"SWEEP harness=(\S+) outcome=VIOLATED run=(\d+) values=(\S*) message=(.*)", line)
+        if m and m.group(1) in shorts:
+            vals = [v for v in m.group(3).split(",") if v]
+            res[shorts[m.group(1)]] = ("violated", 0, 0, vals, m.group(4)[:400])
+    status = "ok" if p.returncode in (0, 1) and len(res) == len(shorts) else "error"
+    return {"status": status, "message": (p.stdout + p.stderr)[-600:] if status != "ok" else "", "results": res}
